@@ -61,6 +61,8 @@ type step struct {
 	DbPaths [][]int `json:"dbpaths,omitempty"`
 	Orphans [][]int `json:"orphans,omitempty"`
 	Dead    bool    `json:"dead,omitempty"`
+	// value-domain dimension (FeltDomain.tla): magnitude class of every abstract value 1..MaxV
+	Mag []string `json:"mag,omitempty"`
 }
 
 // variant fixes everything the concretisation needs, so that a replay file is exact.
@@ -74,6 +76,9 @@ type variant struct {
 	Sweep    bool   `json:"sweep"`    // Get every model key on trie2 after every step (resolves everything)
 	ValSeed  int64  `json:"valSeed"`
 	Poison   bool   `json:"poison"` // run on the poisoning store (lent Get buffers are scribbled after the callback)
+	// magnitude class of abstract value x at Mag[x-1] (FeltDomain.tla); empty = every value below 2^248.
+	// Taken from the behaviour (its generator chose the assignment) unless given explicitly.
+	Mag []string `json:"mag,omitempty"`
 }
 
 type trieInput struct {
@@ -120,6 +125,9 @@ func (v *variant) pathString(bits []int, full bool) string {
 func (v *variant) value(x int) *felt.Felt {
 	if x == 0 {
 		return new(felt.Felt)
+	}
+	if x-1 < len(v.Mag) && v.Mag[x-1] != "" && v.Mag[x-1] != "small" {
+		return magFelt(v.Mag[x-1], v.ValSeed, x)
 	}
 	r := rand.New(rand.NewSource(v.ValSeed*1000 + int64(x)))
 	var b [31]byte
@@ -502,6 +510,12 @@ func allKeys(h int) [][]int {
 
 // replayOne runs one behaviour on both real tries under one variant. It returns the first divergence.
 func replayOne(kind string, h int, beh []step, v *variant, counts map[string]int) (out *replayOutcome, nsteps int, soft []*replayOutcome) {
+	if len(v.Mag) == 0 && len(beh) > 0 {
+		v.Mag = beh[0].Mag
+	}
+	for _, c := range v.Mag {
+		counts["mag-"+c]++
+	}
 	leg, err := newLegacy(v)
 	if err != nil {
 		return &replayOutcome{key: "trie-harness:open-legacy", what: err.Error()}, 0, nil
@@ -535,6 +549,13 @@ func replayOne(kind string, h int, beh []step, v *variant, counts map[string]int
 			kv[refimpl.Key(&kb)] = *v.value(p.V)
 		}
 		want := refimpl.Root(kv, uint(v.Height), hash)
+		// localisation: a root that differs from the independent reference but equals the same definition
+		// evaluated with core/crypto's primitives is a defect of the hash primitive, not of the trie
+		if (lroot != nil && !lroot.Equal(&want)) || (t2root != nil && !t2root.Equal(&want)) {
+			if o := primitiveOutcome(kv, uint(v.Height), v.Poseidon, &want, lroot, t2root, si, what); o != nil {
+				return o
+			}
+		}
 		if lroot != nil && !lroot.Equal(&want) {
 			return &replayOutcome{key: "trie-root:legacy:after-" + lastPut, step: si,
 				what:     "core/trie root after " + what + " differs from the protocol commitment of the key/value set (refimpl.Root)",
@@ -769,6 +790,44 @@ func replayOne(kind string, h int, beh []step, v *variant, counts map[string]int
 	return nil, len(beh), soft
 }
 
+// primitiveOutcome: when refimpl runs on the independent primitives and a real root equals the reference
+// built on core/crypto's primitives instead, the divergence is keyed as a defect of the primitive.
+func primitiveOutcome(kv refimpl.KV, height uint, poseidon bool, want, lroot, t2root *felt.Felt, si int, what string) *replayOutcome {
+	if !refimpl.Independent() {
+		return nil
+	}
+	var junoWant felt.Felt
+	refimpl.WithJuno(func() {
+		h := refimpl.HashFn(refimpl.Pedersen)
+		if poseidon {
+			h = refimpl.Poseidon
+		}
+		junoWant = refimpl.Root(kv, height, h)
+	})
+	if junoWant.Equal(want) {
+		return nil // the primitives agree on this key/value set: the trie is at fault
+	}
+	got := lroot
+	if got == nil || (t2root != nil && !t2root.Equal(want)) {
+		got = t2root
+	}
+	if got == nil || !got.Equal(&junoWant) {
+		return nil
+	}
+	vals := make([]felt.Felt, 0, len(kv))
+	for _, x := range kv {
+		vals = append(vals, x)
+	}
+	name := "pedersen"
+	if poseidon {
+		name = "poseidon"
+	}
+	return &replayOutcome{key: fmt.Sprintf("crypto:%s:trie-root:values-up-to-%s", name, topClass(vals)), step: si,
+		what: "the trie root after " + what + " differs from the protocol commitment computed with the independent hash reference, and equals the same " +
+			"definition computed with core/crypto: the hash primitive is wrong for operands of this magnitude (both tries are wrong identically)",
+		expected: want.String(), observed: got.String()}
+}
+
 func deriveVariants(h int, seed int64, bi int, thorough bool) []variant {
 	r := rand.New(rand.NewSource(seed*1_000_003 + int64(bi)))
 	vs := []variant{smallVariant(h, seed+int64(bi)), embedVariant(h, r, seed+int64(bi))}
@@ -791,6 +850,11 @@ func TestTrieReplay(t *testing.T) {
 	out := vh.NewResult()
 	defer out.Write()
 	defer guard(out, "TestTrieReplay", nil)
+	restore, err := refimpl.UseIndependent()
+	if err != nil {
+		t.Fatal(err) // the references fail their own known answers: broken machinery, never a verdict
+	}
+	defer restore()
 	counts := map[string]int{}
 	nb := 0
 	for bi, beh := range in.Behaviours {
